@@ -23,6 +23,7 @@ var (
 	_ fp.Unit
 	_ = mutable.MapOf[int, int]
 	_ = errors.New
+	_ = hlist.Empty
 )
 
 type lwRand struct {
